@@ -664,3 +664,52 @@ def sequence_rule(m, rid):
             r.fail("SequenceBase|%s|%s" % (args[0], args[2]), "SequenceBase.match(%r, X, %r) gives %r, expected %r (every piece, in order, stripped)"
                    % (args[0], args[2], shown, want), m.loc(f))
     return r
+
+
+# ---------------------------------------------------------------------------------------------------------------
+# the string engines use pattern.match (a PREFIX match) and keep the whole text: the pattern must be a whole-string pattern
+def whole_string_pattern_rule(m, rid):
+    r = RuleResult(rid, "every Pattern handed to StringBase/STRINGBase/NumberBase.match matches whole strings only (the engines test "
+                        "`pattern.match(text)`, a prefix match, and keep the whole text): with a pattern that is not anchored at its end, "
+                        "trailing text -- a surplus ')' -- is accepted and stored")
+    r.floor = 15
+    pats = m.snap["patterns"]
+    for (path, q), f in sorted(m.funcs.items()):
+        if not f.module.startswith("fparser.two"):
+            continue
+        for c in A.calls(f.node):
+            if A.text(c.func) not in ("StringBase.match", "STRINGBase.match", "NumberBase.match") or not c.args:
+                continue
+            a0 = c.args[0]
+            cands = []
+            for x in (a0.elts if isinstance(a0, (ast.List, ast.Tuple)) else [a0]):
+                d = A.dotted(x) or ""
+                wrapped = isinstance(x, ast.Call) and A.text(x.func) == "abs"
+                if wrapped:
+                    d = A.dotted(x.args[0]) or ""
+                if d.startswith("pattern.") and d.split(".", 1)[1] in pats:
+                    cands.append((d.split(".", 1)[1], wrapped))
+            for name, wrapped in cands:
+                r.instances += 1
+                ent = pats[name]
+                ptxt = ent["pattern"]
+                anchored = wrapped or ptxt.endswith(r"\Z") or ptxt.endswith("$")
+                ok = anchored
+                witness = None
+                if not anchored:
+                    # semantic test: a matching word followed by ')' is still "matched" although the full text is not in the language
+                    rx = re.compile(ent["compiled_pattern"], ent["compiled_flags"])
+                    full = re.compile(r"\A(?:" + ptxt + r")\Z", ent["flags"])
+                    from sa import regexlang
+                    words = regexlang.finite_language(ptxt, ent["flags"]) or []
+                    for w in sorted(words, key=len)[:40]:
+                        if rx.match(w + ")") and not full.match(w + ")"):
+                            witness = w + ")"
+                            break
+                    ok = witness is None and bool(words)
+                r.ob(ok, "%s: pattern.%s%s" % (q, name, " (abs)" if wrapped else ""))
+                if not ok:
+                    r.fail("%s|unanchored|%s" % (q, name), "%s hands pattern.%s to %s: the pattern is not anchored at its end, so %s is accepted "
+                           "and kept as the node's text (e.g. `public :: operator(*))` parses, with a surplus parenthesis)"
+                           % (q, name, A.text(c.func), "%r" % witness if witness else "text with trailing characters"), m.loc(f, c))
+    return r
